@@ -6,6 +6,7 @@ package main
 import (
 	"fmt"
 	"go/types"
+	"math/big"
 	"os"
 	"sort"
 	"strings"
@@ -160,6 +161,7 @@ type Machine struct {
 	floatCache     map[string]*Term
 	encBlobs       []*Blob
 	lastHexID      string
+	bigFloats      map[*Obj]*big.Float      // concrete big.Float values by object (zzbigfloat.go)
 	syncMaps       map[string]*syncMapState // sync.Map contents by map object (zzsync.go)
 	servedHandler  Value                    // handler given to http.ListenAndServe (zzhttp.go)
 	nextRecID      *Term                    // recovery id the next modelled crypto.Sign produces (harness request.verifNextRecID)
